@@ -1,12 +1,54 @@
 from hdrcommon import GEN_RULE, hdr_spec
+
+
+def mainnet_locators(seed, tier):
+    """locators on the main net at and above the configured split heights (the back-off walk inserts the split fork
+    points): a mocked header at the real height 556766 or a few heights below, the real BSV header, a synthetic
+    continuation of 0..40 headers, and after every few headers `loc max=m` for every m in 1..12."""
+    import random
+    rnd = random.Random(seed * 31 + 7)
+    out = []
+    n = 6 if tier == "quick" else 60
+    for i in range(n):
+        out.append(f"init net=main maxdepth=144 diff=off split={'off' if (i < 2 or rnd.random() < 0.5) else 'on'}")
+        nid = 1
+        t0 = 1542305000
+        dense = i < 2          # the first scripts: every height split+1 .. split+17, every max
+        if not dense and rnd.random() < 0.5:
+            out += ["hdrreal name=before", "latest id=900003 height=556766 work=1000000", "hdrreal name=bsv", "sub id=900005"]
+            tip = 900005
+        else:
+            base = 556767 - (25 if dense else rnd.randint(2, 30))
+            out.append(f"hdr id={nid} prev=88888 bits=486604799 time={t0}")
+            out.append(f"latest id={nid} height={base} work=1000000")
+            tip = nid
+            nid += 1
+            for _ in range(556766 - base):
+                out.append(f"hdr id={nid} prev={tip} bits=486604799 time={t0 + 600 * nid}")
+                out.append(f"sub id={nid}")
+                tip = nid
+                nid += 1
+            out += ["hdrreal name=bsv_on", f"# (the BSV split header is real: it only attaches to the real 556766)"] if False else []
+        ext = 17 if dense else rnd.randint(0, 40)
+        for k in range(ext + 1):
+            if dense or k % rnd.randint(1, 4) == 0 or k == ext:
+                for m in range(1, 13):
+                    out.append(f"loc max={m}")
+            if k < ext:
+                out.append(f"hdr id={nid} prev={tip} bits=486604799 time={t0 + 600 * nid}")
+                out.append(f"sub id={nid}")
+                tip = nid
+                nid += 1
+        out.append("vloc")
+    return "\n".join(out) + "\n"
 from meta import COMMON_NOTE
 
 SPEC = hdr_spec(
     "C19", "Header locators are well-formed and let a same-chain peer continue from our tip",
     prefixes={"C19"}, profiles=[("loc", 7), ("mixed", 3)],
-    rule=GEN_RULE + "GetLocatorHashes for max in {1,2,3,10,50} and the verify-only locator after arbitrary ops, on pruned chains and with several side branches; "
+    rule=GEN_RULE + "GetLocatorHashes for max in {1,2,3,10,50} and the verify-only locator after arbitrary ops, on pruned chains and with several side branches; main-net scripts at and above the real split height with loc max=1..12 after every few headers; "
          "non-trivial = at least 8 submissions",
-    props_file="C19",
+    props_file="C19", extra=mainnet_locators,
     assumptions=["the peer-side clause (a protocol-conformant peer's reply connects to a header we hold) follows from 'first best-chain entry = tip's parent' and is exercised by C13/C14's scripted peer, not here"])
 
 META = dict(
